@@ -19,7 +19,7 @@ CONTAINERS = ["set", "list", "tuple", "frozenset"]
 
 
 def generate(rng, prop, tier):
-    n_models = 2 if tier == "quick" else 6
+    n_models = 2 if tier == "quick" else 3
     ms = []
     for _ in range(n_models):
         if rng.random() < 0.2:
@@ -28,20 +28,28 @@ def generate(rng, prop, tier):
             ms.append(models.draw(rng, symbol_keys=False, min_sensors=1))
     seeds = [0, rng.choice([1, 2, 4294967295]), rng.randrange(1, 2**32), rng.randrange(1, 2**32)]
     if tier != "quick":
-        seeds += [rng.randrange(1, 2**32) for _ in range(4)]
+        seeds += [rng.randrange(1, 2**32) for _ in range(2)]
     variants = [{"shuffle": 0, "containers": {"state": "set", "control": "set", "calibration": "set"}}]
-    for _ in range(2 if tier == "quick" else 4):
+    for _ in range(2 if tier == "quick" else 3):
         variants.append({"shuffle": rng.randrange(1, 10**6), "containers": {k: rng.choice(CONTAINERS) for k in ("state", "control", "calibration")}})
-    ops = [{"op": "env", "hashseed": s, "faults": ["hashseed"] + (["decl_perm", "container"] if len(variants) > 1 else [])} for s in seeds]
+    # each environment generates the definitions in another order (state carried from one generation to the next in a process)
+    orders = []
+    for e in range(len(seeds)):
+        o = list(range(len(ms)))
+        o = o[e % len(o):] + o[: e % len(o)]
+        if e >= len(o):
+            rng.shuffle(o)
+        orders.append(o)
+    ops = [{"op": "env", "hashseed": s, "order": orders[e], "faults": ["hashseed", "generation_order"] + (["decl_perm", "container"] if len(variants) > 1 else [])} for e, s in enumerate(seeds)]
     return {"config": {"cse": rng.random() < 0.7}, "models": ms, "variants": variants, "ops": ops, "faults": []}
 
 
-def run_env(schedule, hashseed, keep_text=False):
+def run_env(schedule, hashseed, keep_text=False, order=None):
     env = dict(os.environ)
     env["PYTHONHASHSEED"] = str(hashseed)
     if keep_text:
         env["FSIM_KEEP_TEXT"] = "1"
-    job = {"models": schedule["models"], "variants": schedule["variants"], "cse": schedule["config"]["cse"]}
+    job = {"models": schedule["models"], "variants": schedule["variants"], "cse": schedule["config"]["cse"], "order": order}
     cp = subprocess.run([sys.executable, WORKER], input=json.dumps(job), capture_output=True, text=True, env=env, cwd=core.REPO, timeout=600)
     line = [l for l in cp.stdout.splitlines() if l.startswith("RESULT ")]
     if cp.returncode != 0 or not line:
@@ -53,7 +61,10 @@ def execute(schedule) -> Result:
     res = Result()
     envs = []
     for op in schedule["ops"]:
-        recs = run_env(schedule, op["hashseed"])
+        order = [j for j in (op.get("order") or range(len(schedule["models"]))) if j < len(schedule["models"])]
+        order += [j for j in range(len(schedule["models"])) if j not in order]
+        recs = run_env(schedule, op["hashseed"], order=order)
+        res.stats["fault:generation_order"] += 1
         envs.append((op["hashseed"], recs))
         res.ops += 1
         res.stats["fault:hashseed"] += 1
